@@ -1,6 +1,6 @@
 #!/bin/sh
 # tools/trymutant_all.sh <patch.diff> [demo.py] : apply a change in a scratch worktree and run EVERY claimed property's quick check
-# against it; prints which checks report a violation (with or without a concrete input).
+# (or those in $PROPS) against it; prints which checks report a violation (with or without a concrete input).
 DIFF="$(realpath "$1")"; DEMO="${2:+$(realpath "$2")}"
 WT="/tmp/tryall-$$"
 cd /verif || exit 2
@@ -10,7 +10,7 @@ trap 'cp /tmp/tryall-ev-'$$'/*.json /verif/evidence/; rm -rf /tmp/tryall-ev-'$$'
 if [ -n "$DEMO" ]; then PYTHONPATH="$WT/src" /venv/bin/python "$DEMO" >/dev/null 2>&1; echo "demo on clean tree: exit $?"; fi
 git -C "$WT" apply "$DIFF" || { echo "patch does not apply"; exit 2; }
 if [ -n "$DEMO" ]; then PYTHONPATH="$WT/src" /venv/bin/python "$DEMO" >/dev/null 2>&1; echo "demo on mutant: exit $?"; fi
-for p in $(cat tools/claimed.txt); do
+for p in ${PROPS:-$(cat tools/claimed.txt)}; do
   out=$(VERIF_REPO="$WT" timeout 1500 ./check $p --tier quick 2>&1)
   if echo "$out" | grep -q "^VIOLATION.*no-failing-input-found"; then echo "$p: reported (no-failing-input-found)";
   elif echo "$out" | grep -q "^VIOLATION"; then echo "$p: CAUGHT with a concrete input";
